@@ -1259,7 +1259,7 @@ def gen_sequence(tier, rng):
 
 def generate(tier, seed):
     out = []
-    rounds = (12, 6, 3) if tier == 'thorough' else (1, 1, 1)     # further rounds draw other monomials / regions / variants
+    rounds = (8, 4, 2) if tier == 'thorough' else (1, 1, 1)     # further rounds draw other monomials / regions / variants
     for k in range(rounds[0]):
         out += gen_integrate(tier, np.random.default_rng(seed + 2 + 1000 * k))
     for k in range(rounds[1]):
